@@ -34,3 +34,24 @@ Proof.
     + eapply (step_i _ _ _ 1 W1); [reflexivity|]. apply w_pending.
   - reflexivity.
 Qed.
+
+(* ---- "whatever a concurrent write transaction does ... rollback": the file under the readers' pages ----
+   After the allocator was rolled back a bounded file is truncated (tx.go rollbackChanges). For every state a write
+   transaction can reach - allocations from the file end, meta-area growth, an overflow area of its own - the
+   truncation leaves every page below the end of the state the transaction started from (= the last commit, which the
+   open readers use) inside the file. Truncating to the data end marker instead (seeded change C02j) cuts off a
+   committed overflow area. *)
+From VF Require Import Alloc Truncate TruncateProofs MetaAllocProofs RollbackTruncProofs.
+Theorem C02_rollback_keeps_committed_extent : forall a0 p a t sz,
+  Inv0 a0 -> treach a0 p a t -> a_end (meta a) - a_end (data a0) < 2^32 -> 0 < pageSize a0 ->
+  let r := rollback a t in
+  match rollback_truncate (a_end (meta r)) (a_end (data r)) sz (pageSize r) (maxPages r) with
+  | Some n => n < sz /\ n = Z.max (a_end (meta a0)) (a_end (data a0)) * pageSize a0 /\
+              forall id, 0 <= id < Z.max (a_end (meta a0)) (a_end (data a0)) -> (id + 1) * pageSize a0 <= n
+  | None => True
+  end.
+Proof. exact rollback_keeps_committed_extent. Qed.
+Print Assumptions C02_rollback_keeps_committed_extent.
+Theorem C02_rollback_truncate_to_data_end_refuted : exists metaEnd dataEnd sz ps mp n id,
+  rollback_truncate_dataend dataEnd sz ps mp = Some n /\ dataEnd <= id < metaEnd /\ n < (id + 1) * ps.
+Proof. exact rollback_truncate_dataend_refuted. Qed.
